@@ -32,8 +32,7 @@ def cases(tier, seed):
                 orders = [0] + orders
             for o in orders:
                 N = {1: 9, 2: 6, 3: 5}[D] if (o or 0) % 2 == 0 else {1: 10, 2: 5, 3: 4}[D]
-                if name in ("stepper.KolmogorovFlowVelocity", "stepper.NavierStokesVelocity"):
-                    N = max(N, 5)
+                N = zoo.nontrivial_N(name, N)
                 if D == spec["dims"][0] and (o == orders[0]):
                     out.append(dict(kind="ad", cls=name, D=D, N=N, order=o, lite=(tier == "quick"), defaults=True, rs=[seed, env.crc(name), D, o or 0, 1], cost={1: 1, 2: 2, 3: 6}[D]))
                 out.append(dict(kind="ad", cls=name, D=D, N=N, order=o, lite=(tier == "quick"), rs=[seed, env.crc(name), D, o or 0], cost={1: 1, 2: 2, 3: 6}[D]))
